@@ -23,7 +23,7 @@ BUDGET = {"quick": 600, "thorough": 3600}
 
 
 def plan(tier):
-    n = 400 if tier == "quick" else 12000
+    n = 800 if tier == "quick" else 12000
     return [{"kind": "hyp", "n": n} for _ in range(16)]
 
 
